@@ -148,4 +148,73 @@ pub fn v_lcm_flat_map<T, F: Fn(&T) -> Option<usize>>(s: &[T], f: F, Ghost(vals):
 }
 pub assume_specification [usize::is_power_of_two] (n: usize) -> (r: bool)
     ensures r == crate::verif_specs::is_pow2(n as nat);
+
+/// derived `PartialEq` of `Function` is structural (A5)
+impl vstd::std_specs::cmp::PartialEqSpecImpl for crate::semantic::types::Function {
+    open spec fn obeys_eq_spec() -> bool { true }
+    open spec fn eq_spec(&self, other: &crate::semantic::types::Function) -> bool { *self == *other }
+}
+
+/// derived `Clone` impls are structural (A5)
+pub assume_specification [<crate::grammar::ItemPath as Clone>::clone] (p: &crate::grammar::ItemPath) -> (r: crate::grammar::ItemPath)
+    ensures r == *p;
+pub assume_specification [<crate::semantic::types::Function as Clone>::clone] (p: &crate::semantic::types::Function) -> (r: crate::semantic::types::Function)
+    ensures r == *p;
+pub assume_specification [<crate::semantic::types::Region as Clone>::clone] (p: &crate::semantic::types::Region) -> (r: crate::semantic::types::Region)
+    ensures r == *p;
+
+/// index of the first `true` among the first k entries
+pub open spec fn first_true(ps: Seq<bool>, k: int) -> Option<int>
+    decreases k
+{
+    if k <= 0 { None } else { match first_true(ps, k - 1) { Some(i) => Some(i), None => if ps[k - 1] { Some(k - 1) } else { None } } }
+}
+/// R-std: `s.iter().map(f).find(g)` (verified: a plain loop returning the first mapped element that satisfies g).
+/// `us` / `ps` are ghost descriptions of what f and g compute per element, checked against the closures'
+/// own postconditions in `requires`.
+pub fn v_map_find<'a, T, U, F: Fn(&'a T) -> &'a U, G: Fn(&&'a U) -> bool>(s: &'a [T], f: F, g: G, Ghost(us): Ghost<Seq<U>>, Ghost(ps): Ghost<Seq<bool>>) -> (r: Option<&'a U>)
+    requires
+        us.len() == s@.len(), ps.len() == s@.len(),
+        forall|i: int| 0 <= i < s@.len() ==> f.requires((&#[trigger] s@[i],)),
+        forall|i: int, o: &'a U| 0 <= i < s@.len() && #[trigger] f.ensures((&s@[i],), o) ==> *o == us[i],
+        forall|u: &&'a U| #[trigger] g.requires((u,)),
+        forall|i: int, u: &&'a U, b: bool| 0 <= i < s@.len() && **u == #[trigger] us[i] && #[trigger] g.ensures((u,), b) ==> b == ps[i],
+    ensures
+        match first_true(ps, ps.len() as int) { Some(i) => 0 <= i < ps.len() && r is Some && *r->0 == us[i], None => r is None },
+{
+    proof { lemma_first_true_bounds(ps, ps.len() as int); }
+    let mut i: usize = 0;
+    while i < s.len()
+        invariant
+            i <= s.len(), us.len() == s@.len(), ps.len() == s@.len(),
+            first_true(ps, i as int) is None,
+            forall|k: int| 0 <= k < s@.len() ==> f.requires((&#[trigger] s@[k],)),
+            forall|k: int, o: &'a U| 0 <= k < s@.len() && #[trigger] f.ensures((&s@[k],), o) ==> *o == us[k],
+            forall|u: &&'a U| #[trigger] g.requires((u,)),
+            forall|k: int, u: &&'a U, b: bool| 0 <= k < s@.len() && **u == #[trigger] us[k] && #[trigger] g.ensures((u,), b) ==> b == ps[k],
+        decreases s.len() - i,
+    {
+        let u = f(&s[i]);
+        if g(&u) {
+            proof { lemma_first_true_stable(ps, i as int + 1, ps.len() as int); }
+            return Some(u);
+        }
+        i += 1;
+    }
+    None
+}
+pub proof fn lemma_first_true_bounds(ps: Seq<bool>, k: int)
+    requires 0 <= k <= ps.len()
+    ensures first_true(ps, k) is Some ==> 0 <= first_true(ps, k)->0 < k && ps[first_true(ps, k)->0]
+    decreases k
+{
+    if k > 0 { lemma_first_true_bounds(ps, k - 1); }
+}
+pub proof fn lemma_first_true_stable(ps: Seq<bool>, k: int, n: int)
+    requires 0 <= k <= n, first_true(ps, k) is Some
+    ensures first_true(ps, n) == first_true(ps, k)
+    decreases n - k
+{
+    if k < n { lemma_first_true_stable(ps, k, n - 1); }
+}
 }
